@@ -23,6 +23,17 @@ ASSUMPTION_TEXT = {
                "is executed by CPython and read by reflection, not verified",
     "[E-JSON]": "[E-JSON] json.dumps/loads round-trip JSON values type-exactly and fail before producing output",
     "[E-FS]": "[E-FS] POSIX file model at primitive granularity; os.replace atomic; process-crash only",
+    "[L-SUM]": "[L-SUM] (paper) buffer size == sum over files of the per-file contribution: each buffer function is proved "
+               "to change the size by exactly the contribution delta of its one file and to leave other entries untouched; "
+               "`size == 0 after a forced flush` then follows from the pointwise-proved `no file keeps a contribution`",
+    "[E-UUID]": "[E-UUID] a temp-file name derived from a fresh uuid4 names no existing file and is none of the file names "
+                "the program already holds",
+    "[E-MD5]": "[E-MD5] hashlib.md5 has no collisions on the blobs compared",
+    "[A-REPOINT]": "[A-REPOINT] the `_filename` of a collection does not change while it is registered in the buffer "
+                   "(re-pointing a collection inside its buffered context strands its entry - observed, see DESIGN.md 11.5)",
+    "[Inv.cover]": "[Inv.cover] every file with a buffer entry has a registered collection bound to it: assumed at entry of "
+                   "each buffer function (pointwise, with ghost witnesses), proved at each non-fault exit, required at "
+                   "every call of _flush_buffer",
     "[E-CLIENT]": "[E-CLIENT] redis / pymongo / zarr client APIs behave as specified in the trusted contracts of "
                   "_load_from_resource/_save_to_resource for those back ends",
 }
